@@ -73,7 +73,7 @@ def validate(run, trace, st):
     recs = run.validate_trace("Trace_Imports.tla", "Trace_Imports.cfg", trace_path=trace)
     tpath = os.path.join(run.tla_dir(), "trace%d.ndjson" % (len(run.tlc_runs) - 1))
     mine = [r for r in recs if r["prop"] == prop]
-    run.drift = sum(1 for r in recs if r["prop"] == "DRIFT")
+    run.drift += sum(1 for r in recs if r["prop"] == "DRIFT")
     others = sorted({r["prop"] for r in recs if r["prop"] not in (prop, "DRIFT")})
     firsts = {}
     for r in mine:
@@ -95,14 +95,14 @@ def validate(run, trace, st):
     for r in mine:
         viols.append(dict(prop=prop, key=r["key"], family="imports", trace=r["trace"], line=r["line"],
                           history=to_history(slices.get(r["trace"], []))))
-    run.traces = st["stats"].get("traces", 0)
-    run.evals = st["stats"].get("events", 0)
-    run.distinct = st["stats"].get("renders_with_2plus_imports", 0)
-    run.rule = ("histories = every observation-terminated behaviour of the TLC universes (exported, one per explored state) "
+    run.traces += st["stats"].get("traces", 0)
+    run.evals += st["stats"].get("events", 0)
+    run.distinct += st["stats"].get("renders_with_2plus_imports", 0)
+    run.rule += ("histories = every observation-terminated behaviour of the TLC universes (exported, one per explored state) "
                 "plus seeded Go drivers; distinct_nontrivial = distinct raw outputs of renders whose import block has >= 2 specs")
-    run.samples = st.get("samples", [])
+    run.samples += st.get("samples", [])
     run.cov["other_properties_flagged_in_same_traces"] = others
-    run.cov["harness_stats"] = st["stats"]
+    run.cov.setdefault("harness_stats", []).append(st["stats"])
     run.assumptions += [
         "import specs / references are read from the output token stream with go/scanner; doc comments with go/parser",
         "standard-library names = package clauses parsed from GOROOT/src; an ImportName claim is taken as the package's real name",
